@@ -164,6 +164,7 @@ bool StepScript(InterpreterEnv& env)
 
         // Update environment
         env.curr_op_seq++;
+        ++env.opcode_pos; // position of the next opcode, signed over after OP_CODESEPARATOR in tapscript (BIP342)
         return true;
     }
 
